@@ -148,7 +148,7 @@ TraceNext ==
                  /\ impTaint' = ""      \* a new chain is started from this export
                  /\ viol' = viol \cup
                       (IF e.zeroErr # "" THEN {Sig("C19", "zero-height-export-or-import-failed", "-", e)} ELSE {}) \cup
-                      (IF ~e.ok THEN {Sig("C19", "export-import-failed", "-", e)}
+                      (IF ~e.ok THEN {Sig("C19", "export-import-failed", e.errClass, e)}
                        ELSE {Sig("C19", m, e.norm[m][p], e) :
                                <<m, p>> \in {mp \in UNION {{<<m2, p2>> : p2 \in DOMAIN e.before[m2]} : m2 \in DOMAIN e.before} :
                                                 /\ e.before[mp[1]][mp[2]] # e.after[mp[1]][mp[2]]
